@@ -43,14 +43,15 @@ static void make_payload(op_t *o, int start, size_t n)
 static void gen_faults(op_t *o, rng_t *r, int call, int maxn, int allow_eagain, int hard)
 {
     int n = rng_range(r, 0, maxn);
+    static const int bursts[] = { 2, 3, 5, 98, 99, 100, 101, 130 };       /* the same answer that many times in a row (the send back-off carries into seconds at 100) */
     for (int i = 0; i < n; i++) {
         int k = (int)rng_below(r, 100), f;
         if (k < 30) f = FAULT(call, FO_FULL, 0);
         else if (k < 65) {
             static const int lims[] = { 1, 2, 3, 7, 62, 100, 1000, 4094, 4095, 4096, 4097 };      /* (reads ask for 4096 bytes at a time: only limits below that shorten them) */
             f = FAULT(call, FO_SHORT, lims[rng_below(r, call == FC_READ ? 9 : 11)]);
-        } else if (k < 85) f = FAULT(call, FO_EINTR, 0);
-        else if (k < 95 && allow_eagain) f = FAULT(call, FO_EAGAIN, 0);
+        } else if (k < 85) f = FAULT(call, FO_EINTR, rng_chance(r, 1, 12) ? bursts[rng_below(r, 8)] : 0);
+        else if (k < 95 && allow_eagain) f = FAULT(call, FO_EAGAIN, rng_chance(r, 1, 10) ? bursts[rng_below(r, 8)] : 0);
         else if (hard && k >= 97) f = FAULT(call, FO_EIO, 0);
         else f = FAULT(call, FO_SHORT, 1 + (int)rng_below(r, call == FC_READ ? 4095 : 5000));
         op_fault(o, f);
